@@ -60,8 +60,10 @@ class Interp:
         self.reqs.append(r)
         return r
 
-    def map(self, L, conc, stars=0, group=None, bad=-1, fname="fn"):
-        """map/starmap/doublestarmap over a counting generator of L elements; element `bad` (if any) makes the call raise."""
+    def map(self, L, conc, stars=0, group=None, bad=-1, fname="fn", badkind=0):
+        """map/starmap/doublestarmap over a counting generator of L elements; element `bad` (if any) makes the call raise:
+        badkind 0 = func rejects that element's (well-formed) arguments; badkind 1 = the element cannot even be unpacked
+        (a non-iterable for starmap, a non-mapping for doublestarmap)."""
         r = self._newreq(("map", "starmap", "doublestarmap")[stars], L=L, conc=conc, stars=stars, bad=bad)
         self.w.op(r["kind"], L, conc, group)
         items = []
@@ -74,7 +76,11 @@ class Interp:
                 items.append({"x": ("el", j), "y": j})
         r["items"] = items
         fn = self.w.worker(r["idx"], fname)
-        if bad >= 0:
+        if bad >= 0 and badkind == 1 and stars >= 1:
+            for j in range(L):
+                if j == bad:
+                    items[j] = 7 if stars == 1 else [1, 2]
+        elif bad >= 0:
             inner = fn
 
             def fnb(*a, **k):
